@@ -378,4 +378,24 @@ def Stack.Good (s : Stack) (H W : Nat) (pages : List Page) : Prop :=
   0 < s.st ∧ s.roi.Within H W ∧ s.Paged pages
 
 
+/-! ### programs of NumPy index expressions (specification side) -/
+
+/-- One NumPy index expression `[a:b:c, ra:rb, ca:cb]`. -/
+structure Idx where
+  a : Option Int
+  b : Option Int
+  c : Option Int
+  ra : Option Int
+  rb : Option Int
+  ca : Option Int
+  cb : Option Int
+
+/-- the same as an operation of the stack: `stack[a:b:c, ra:rb, ca:cb]` -/
+def Idx.toOp (i : Idx) : Op := .tuple [.slice i.a i.b i.c, .slice i.ra i.rb none, .slice i.ca i.cb none]
+
+/-- NumPy: `array[a:b:c, ra:rb, ca:cb]` on a `[frame][row][column]` array -/
+def Idx.np {α} (arr : List (List (List α))) (i : Idx) : List (List (List α)) :=
+  (pySliceStep arr i.a i.b (i.c.getD 1).toNat).map fun img => pySlice2 img i.ca i.cb i.ra i.rb
+
+
 end Verif.C07
